@@ -20,6 +20,7 @@ Supports expressions like:
 import ast
 import re
 import statistics
+import types
 import warnings
 from datetime import date as date_type
 from typing import Any, Dict, List, Optional, Set, Callable, Union
@@ -1368,7 +1369,11 @@ def _evaluate_checked(evaluator, tree: ast.AST) -> Any:
     not abort the caller.
     """
     try:
-        return evaluator.evaluate(tree)
+        result = evaluator.evaluate(tree)
+        if isinstance(result, types.GeneratorType):
+            # A bare generator expression yields its items, never the generator object
+            result = list(result)
+        return result
     except ExpressionError:
         raise
     except Exception as e:
